@@ -205,14 +205,14 @@ func (c *Crew) SetMachine(ctx context.Context, mid string, src *crew.SpecSource,
 
 		if state == nil {
 			state = DefaultState(nil)
-			state.Bs["timers"] = c.timers.Map
+			state.Bs["timers"] = c.timers.Pending()
 
 		}
 		if ts, have := state.Bs["timers"]; have {
 			if err := c.timers.withMap(ts); err != nil {
 				return err
 			}
-			m.State.Bs["timers"] = c.timers.Map
+			m.State.Bs["timers"] = c.timers.Pending()
 			if err := c.timers.Start(ctx); err != nil {
 				return err
 			}
@@ -250,6 +250,10 @@ func (c *Crew) DeleteMachine(ctx context.Context, mid string) error {
 // which can then be processed by the crew's Result coupling.
 func (c *Crew) ProcessMsg(ctx context.Context, msg interface{}) (*Result, error) {
 	c.Logf("ProcessMsg %s", JS(msg))
+
+	// Timer goroutines update the change cache, too.
+	c.Lock()
+	defer c.Unlock()
 
 	// Some emitted messages are routed back to sheens.  Rather
 	// than call ProcessMsg recursively, we take a breadth-first
